@@ -112,7 +112,7 @@ def gen_cases(run, cpuinfo):
         for ln in lines:
             for a in (ADDRS_Q if quick else ADDRS_T):
                 cases.append((ln, a))
-            vs = corpus.variants(ln, classes, rng, 2 if quick else None, 1 if quick else None)
+            vs = corpus.variants(ln, classes, rng, 10 if quick else None, 3 if quick else None)
             for v, what in vs:
                 if v in seen:
                     continue
